@@ -201,11 +201,27 @@ class Behavior(_IModel):
         # the local problem collapses to one scalar when the surface is quadratic and nothing
         # else evolves; the decomposition it runs in is built here, once, not per Gauss point
         self.solver = solver
-        self.__eigen = (
-            _spectral.Build(*elastic.Get_sqrt_C_S(), yieldSurface.P)
-            if self.__Is_reducible()
-            else None
-        )
+        self.__eigen = None
+        self.__eigen_key: Optional[tuple] = None
+        self.__Get_eigen()
+
+    def __Get_eigen(self):
+        """Spectral data of the local problem, rebuilt when the elastic law (or the solver) has changed."""
+        C = self.C
+        key = self.__eigen_key
+        if (
+            key is None
+            or key[0] != self.solver
+            or key[1].shape != C.shape
+            or not np.array_equal(key[1], C)
+        ):
+            self.__eigen_key = (self.solver, C)
+            self.__eigen = (
+                _spectral.Build(*self.__elastic.Get_sqrt_C_S(), self.__yield.P)
+                if self.__Is_reducible()
+                else None
+            )
+        return self.__eigen
 
     def __Is_reducible(self) -> bool:
         """Whether the spectral return applies: quadratic surface, homogeneous C, nothing else."""
@@ -422,7 +438,7 @@ class Behavior(_IModel):
                 zOld_e_pg,
                 np.ones((Ne, nPg), dtype=bool),
             )
-        if self.__eigen is not None:
+        if self.__Get_eigen() is not None:
             return self.__Spectral(eps6_e_pg, zOld_e_pg, C6_e_pg, dt)
         return self.__Flow(eps6_e_pg, zOld_e_pg, C6_e_pg, dt)
 
